@@ -14,7 +14,7 @@ verus! {
 use std::rc::Rc;
 
 // ---------------------------------------------------------------- shim: field types of ExecutionCtx (trusted, opaque)
-pub struct Scalars<'i> { pub ph: core::marker::PhantomData<&'i u8> }
+pub struct Scalars<'i> { pub opaque_payload: u64, pub ph: core::marker::PhantomData<&'i u8> }
 pub struct Streams { pub x: u8 }
 pub struct StreamMaps { pub x: u8 }
 pub struct LastErrorDescriptor { pub x: u8 }
@@ -28,7 +28,7 @@ pub struct PeerCidTracker { pub x: u8 }
 pub struct CidInfo { pub x: u8 }
 pub struct RunParameters { pub x: u8 }
 pub struct RcRunParameters { pub current_peer_id: Rc<String> }
-impl<'i> Default for Scalars<'i> { fn default() -> Self { Scalars { ph: core::marker::PhantomData } } }
+impl<'i> Default for Scalars<'i> { fn default() -> Self { Scalars { opaque_payload: 0, ph: core::marker::PhantomData } } }
 impl Default for StreamMaps { fn default() -> Self { StreamMaps { x: 0 } } }
 impl Default for LastErrorDescriptor { fn default() -> Self { LastErrorDescriptor { x: 0 } } }
 impl Default for ErrorDescriptor { fn default() -> Self { ErrorDescriptor { x: 0 } } }
